@@ -92,12 +92,12 @@ def injected_faults(sc, seed, tier, only=None):
         if len(ks) > cap:
             ks = sorted(r.sample(ks, cap))
         plans = [((k,), errnos[(k + i) % 4]) for k in ks]
-        if only is not None:
-            plans = [(tuple(only["fail_at"]), getattr(E, only["errno"]))]
         if ncalls >= 2:
             for _ in range(3 if tier == "quick" else 20):
                 a, b = sorted(r.sample(range(1, ncalls + 1), 2))
                 plans.append(((a, b), r.choice(errnos)))
+        if only is not None:
+            plans = [(tuple(only["fail_at"]), getattr(E, only["errno"]))]
         for kk, en in plans:
             raw, lines = one({"SY_FAIL_AT": ",".join(map(str, kk)), "SY_FAIL_ERRNO": str(en)})
             stats["runs"] += 1; stats["pairs"] += 1 if len(kk) == 2 else 0
@@ -105,6 +105,8 @@ def injected_faults(sc, seed, tier, only=None):
             hit = [lines[k] for k in kk if k in lines]
             for h in hit:
                 stats["by_call"][h[1]] = stats["by_call"].get(h[1], 0) + 1
+            if only is not None:
+                print("LOG", sorted(lines.items())[:40])
             ident = {"world": "inject-%d" % i, "index": i, "tier": tier, "flags": fl, "fail_at": list(kk), "errno": E.errorcode[en], "failed_calls": [h[1:4] for h in hit], "seed": seed}
             if raw.get("timeout"):
                 viol.append(dict(ident, why="the run did not end after the injected fault")); continue
